@@ -78,7 +78,8 @@ def _job(args):
         note("shared-object")
         widths = list(widths)
         widths = widths[len(widths) // 2:] + widths[: len(widths) // 2]  # not monotone: a stale cached width would show
-    general = spec[0] == "TABLE" and any(co.get("width") is not None or co.get("min_width") is not None or co.get("no_wrap", False)
+    general = True  # `Dom` depends on the width: recomputed for every w
+    _unused = spec[0] == "TABLE" and any(co.get("width") is not None or co.get("min_width") is not None or co.get("no_wrap", False)
                                         for co, _h, _f, _cs in spec[2])
     for w in widths:
         console._verif_w = w
@@ -101,6 +102,16 @@ def _job(args):
             okg = all(x <= w + fl for x in lw)
             checks.append((okg, "Table with min_width columns", (spec, cwidth, opts, w) if not okg else None,
                            f"a line is {max(lw)} cells wide with {w} available and min_width floors of {fl}", None))
+            continue
+        if w >= sm and dom.startswith("open"):
+            # outside `Dom` through a NOT DISCHARGED condition only: no counterexample is known; a failure here is a new witness
+            if not out.startswith("err:"):
+                lw = L.line_widths(out)
+                oko = all(x <= w for x in lw)
+                checks.append((oko, "Console.render (outside Dom: condition not discharged, no counterexample known)",
+                               (spec, cwidth, opts, w) if not oko else None,
+                               f"a line is {max(lw)} cells wide with {w} available (structural minimum {sm})",
+                               "progressbar-no-newline" if (not oko and dom == "open:f23") else None))
             continue
         if w >= sm and dom != "out":
             if out.startswith("err:"):
@@ -302,12 +313,12 @@ MANIFEST = {
     "every group member but the last ends its line; tables with columns free to wrap (any number of columns, ratios included) OR "
     "arbitrary columns (width / max_width / no_wrap) within C07's budget `tableBudget`, with the exact bound `table_general_bound` "
     "(available width + min_width floors) when a min_width binds; panels with ANY title (rendered as a Text at the panel's width); rules "
-    "under every options incl. overflow='ignore'.  Each exclusion has a machine-checked witness (`excluded_*`).  STILL NOT DISCHARGED (no "
-    "counterexample: evaluated directly in every run, plus a brute-force search over 40k Columns(width>=1) and 4k below-minimum tables on "
-    "real rich): Constrain/Align narrower than the child's structural minimum, Table(width) below one cell per column, "
-    "Columns(width>=1) — all three reduce to one missing arithmetic fact, `_calculate_column_widths` of free columns BELOW one cell per "
-    "column never exceeds one cell per column (and, for Columns(width), the last-resort ratio_reduce path), which would let the induction "
-    "be restated as `no line wider than max(W, smin)`.  Outside the model (driver answers `unmodelled`; 0 requests on the code in /repo as it is now): a "
+    "under every options incl. overflow='ignore'.  Each exclusion has a machine-checked witness (`excluded_*`).  `render_fits_any` bounds every line by max(W, smin) at EVERY width, so "
+    "Constrain/Align put no condition on the width they hand down.  STILL NOT DISCHARGED (no counterexample: evaluated directly in every run "
+    "under its own site name, plus a brute-force search over 40k Columns(width>=1) and 4k below-minimum tables on real rich): a table with "
+    "free columns, or Columns, OFFERED less than one cell per column (only reachable inside a Constrain/Align narrower than the child's "
+    "structural minimum, or with Table(width) below one cell per column) — needs `_calculate_column_widths` of free columns below one cell "
+    "each; and Columns(width>=1) — needs the last-resort ratio_reduce path of fixed-width columns.  Outside the model (driver answers `unmodelled`; 0 requests on the code in /repo as it is now): a "
     "__rich__ that returns another __rich__ object, a raising expand_tabs; styles are not modelled (a str is modelled as the Text render_str "
     "makes of it; rule titles are one-line simple texts; the spans of a styled panel/rule title are not modelled — they only matter when an over-long line is cropped exactly at a zero-width character, seen once in 1.7M cases).  `Text.Inv` of the wrapped-and-joined text is checked at run time by the model; "
     "the panel title's end/no_wrap/overflow fields are re-asserted by a record update in the model.  smin reads Columns as one column per "
